@@ -271,9 +271,10 @@ PROPERTIES = {
     'C01': {
         'level': 'model_checking',
         'units': lambda tier: [V_LAYOUT] + bx_units(tier),
-        'explanation': 'Verus proves, on text extracted from /repo on this run, that align_bytes, end, push_datum, append_data, '
+        'explanation': 'Verus proves, on text extracted from /repo on this run, that align_bytes, end, push_datum, remove_data, append_data, '
                        'append_data_reverse and basic map every WF variant list to a WF list (address order incl. zero-size data => '
-                       'pairwise disjoint byte ranges, lemma_wf_implies_disjoint). simple() is executed natively on every pre-state '
+                       'pairwise disjoint byte ranges, lemma_wf_implies_disjoint), and that fit_datum_to_gap / select_start_or_end_of_gap return '
+                       'placements inside the gap, aligned, with exact remainders. The main body of simple() is executed natively on every pre-state '
                        'inside the stated bound against the same contract (bounded, not proved).',
         'rule': 'bx: every WF pre-state within the window x every removal subset x every sequence of additions; non-trivial = a '
                 'datum survives and an added datum was placed below the previous end',
@@ -372,7 +373,7 @@ GK = {'kind': 'kani', 'name': 'gk-corpus', 'crate': 'gk', 'repo_crates': ['truc'
       'flags': ['--cbmc-args', '--memory-leak-check'], 'tier_env': 'GK_TIER', 'env': {'GK_DUMP_DIR': os.path.join(BUILD, 'gk-gen'), 'GK_SEED': str(int(os.environ.get('VERIF_SEED', '0') or 0))},
       'expect': {'.': {'covers': 'any'}}, 'min_harnesses': 40, 'timeout': 6000,
       'functions': ['generated new / new_uninit / unpack / accessors / Drop / 4 x From / clone / clone_from of every corpus module (emitted by truc::generator::generate on this run)'],
-      'assumptions': ['corpus of definitions (quick: 9 fixed + 2 random modules drawn from VERIF_SEED; thorough: 12 fixed + 12 random): the "all generated modules" quantifier is sampled; the generator itself (codegen, format!, itertools) is outside both verifiers',
+      'assumptions': ['corpus of definitions (quick: 9 fixed + 2 random modules drawn from VERIF_SEED; thorough: 13 fixed + 12 random): the "all generated modules" quantifier is sampled; the generator itself (codegen, format!, itertools) is outside both verifiers',
                       'per module each harness is straight-line over full-domain symbolic field values: complete for that module']}
 CALLSITES = {'kind': 'callsites', 'name': 'c07-callsites'}
 
